@@ -3,6 +3,7 @@
 package execution
 
 import (
+	"context"
 	"os"
 	"path/filepath"
 	"sort"
@@ -248,4 +249,74 @@ func VerifC15_M_chain_lost_middle_blob() {
 	sym.Assert(okMin == okAll, "C15.M1.chain-same-success-in-both-modes")
 	sym.Assert(outMin == outAll && outAll == "T2:B:A", "C15.M4.chain-same-bytes-in-both-modes")
 	sym.Reach("C15.M.chain")
+}
+
+// Two dependants of one cached dependency execute in the same build on two workers (whole
+// Executor.Execute). Whatever is lost from the cache, minimal mode must end like mode all: build
+// succeeds, both dependants saw the dependency's output, and the dependency ran at most once.
+func VerifC15_M_parallel_dependants() {
+	newWorld()
+	config.Global.NumWorkers = 2
+	cmdModel["build-d"] = &cmdBehaviour{writes: map[string]string{"p/d.txt": "D"}}
+	dependant := func(name, prefix string) func() error {
+		return func() error {
+			b, err := os.ReadFile(wsPath("p/d.txt"))
+			if err != nil {
+				return err
+			}
+			return os.WriteFile(wsPath("p/"+name+".txt"), []byte(prefix+string(b)), 0644)
+		}
+	}
+	cmdFuncs["build-t1"], cmdFuncs["build-t2"] = dependant("t1", "1:"), dependant("t2", "2:")
+	cmdFuncs["build-t1-v2"], cmdFuncs["build-t2-v2"] = dependant("t1", "1v2:"), dependant("t2", "2v2:")
+	mk := func(suffix string) []*model.Target {
+		d := fileTarget("d", "build-d", "d.txt")
+		t1 := fileTarget("t1", "build-t1"+suffix, "t1.txt")
+		t2 := fileTarget("t2", "build-t2"+suffix, "t2.txt")
+		t1.Dependencies = append(t1.Dependencies, d.Label)
+		t2.Dependencies = append(t2.Dependencies, d.Label)
+		return []*model.Target{d, t1, t2}
+	}
+	ctx := context.Background()
+	e1, _ := fullExecutor(ctx, false, config.LoadOutputsAll, mk(""))
+	comps1, err1 := e1.Execute(ctx)
+	sym.Quiesce()
+	sym.Assert(!exitsNonZero(comps1, err1), "C15.P.setup-first-build")
+	sym.ProcessExit()
+	// fresh checkout, both dependants edited; the dependency is unchanged (a cache hit)
+	for _, f := range []string{"p/d.txt", "p/t1.txt", "p/t2.txt"} {
+		_ = os.Remove(wsPath(f))
+	}
+	switch sym.Choice("lost_from_cache", 3) {
+	case 1: // the dependency's blob
+		cas := filepath.Join(cacheDir(), "cas")
+		for _, name := range listDir(cas) {
+			if b, err := os.ReadFile(filepath.Join(cas, name)); err == nil && string(b) == "D" {
+				_ = os.Remove(filepath.Join(cas, name))
+				sym.Reach("C15.P.blob-lost")
+			}
+		}
+	case 2: // every target result
+		for _, name := range listDir(filepath.Join(cacheDir(), "target")) {
+			_ = os.Remove(filepath.Join(cacheDir(), "target", name))
+		}
+	}
+	mode := modeOf(sym.Choice("mode", 2))
+	before := len(cmdLog)
+	e2, _ := fullExecutor(ctx, false, mode, mk("-v2"))
+	comps2, err2 := e2.Execute(ctx)
+	sym.Quiesce()
+	sym.Assert(!exitsNonZero(comps2, err2), "C15.P.build-succeeds-in-both-modes")
+	for f, want := range map[string]string{"p/t1.txt": "1v2:D", "p/t2.txt": "2v2:D"} {
+		got, ok := readWS(f)
+		sym.Assert(ok && got == want, "C15.P.dependants-saw-the-dependency-output")
+	}
+	dRuns := 0
+	for _, c := range cmdLog[before:] {
+		if c == "build-d" {
+			dRuns++
+		}
+	}
+	sym.Assert(dRuns <= 1, "C15.P.dependency-runs-at-most-once")
+	sym.Reach("C15.P.parallel")
 }
